@@ -94,6 +94,12 @@ CHECKS = {
         ref="DESIGN.md section 6 C08",
         note="Single results are observed on the real code right after the batch; downstream failure / slowness is selected by operation name so that it is the same alone and in a batch; nested fan-outs are not gated.",
         technique="TLA+ model of the fan-out (TLC, all interleavings) forced on the real handler via hook gates + TLC trace validation of batch-vs-single observations"),
+    "C14": dict(
+        category="model_checking",
+        text="PlanCache.tla models the caching planner as written (key taken before planning, eviction on every call, lookup, compute + in-place sanitisation + store, two requests in flight) over a pool of 8 operations that differ pairwise in exactly one component (selection, operation type, which operation of a two-operation document operationName selects, variable defaults, fragment body behind the same spread, helper ids written out). TLC checks (537k states) that every request uses the plain planner's plan for ITS operation, that the key the code hashed before fix C14-X1 violates this (vacuity guard), and prints all 16,384 complete histories; a seeded slice (quick) / all (thorough) x TTL in {0, short, long} are replayed on a real caching gateway and in lockstep on a real plain gateway; CacheTrace.tla demands equal responses and equal per-service sub-request bags. Plus long random histories with 1-8 concurrent clients and varying variable values.",
+        ref="DESIGN.md section 6 C14",
+        note="Expiry is straddled with real millisecond TTLs and sleeps; concurrent histories compare responses only; subscriptions interleaved with queries are exercised by the subscription drivers on a caching gateway.",
+        technique="TLA+ model of the cache protocol (TLC) whose histories are replayed differentially on caching vs plain real gateways + TLC trace validation"),
 }
 
 PENDING = "not claimed yet: specification and binding for this property are still being built (DESIGN.md section 10 build order)"
